@@ -711,6 +711,7 @@ where
     Comm<S>: Clone,
     State<S>: Clone,
 {
+    hiding_above_degree::<S>(ctx);
     for i in 0..n {
         let id = format!("C01/{}/{}", S::NAME, i);
         if !ctx.selected(&id) {
@@ -2345,5 +2346,58 @@ fn short_challenges<S: Scheme>(
             what: format!("statement challenges of {} bits (model: 128); zero-challenge prefix {} did not make value+1 acceptable ({:?})", minbits, ctr, out),
             replay: txt,
         });
+    }
+}
+
+/// Completeness where the hiding bound EXCEEDS the supported degree (a low-degree polynomial protected for many
+/// queries): the keys are trimmed for it (`supported_hiding_bound` is independent of `supported_degree`), commit
+/// answers, so the honest opening — single and batched — must be accepted.  KZG-type schemes (the blinding
+/// polynomial lives on the separate `powers_of_gamma_g` table).
+fn hiding_above_degree<S: Scheme>(ctx: &mut Ctx)
+where
+    Pt<S>: Clone + Ord + std::fmt::Debug,
+{
+    if !(S::NAME == "marlin" || S::NAME == "sonic") {
+        return;
+    }
+    for i in 0..ctx.n(4, 16) {
+        let id = format!("C01/{}/hiding-above-degree/{}", S::NAME, i);
+        if !ctx.selected(&id) {
+            continue;
+        }
+        let mut rng = rng_for(ctx.seed, &format!("C01/{}/hiding-above-degree", S::NAME), i as u64);
+        let supported = 1 + i % 4;
+        let h = supported + 2 + i % 5;
+        let max_degree = h + 3;
+        let sizes = Sizes { max_degree, supported, num_vars: None };
+        let r = guarded(|| -> Result<(bool, bool), String> {
+            let pp = S::PC::setup(max_degree, None, &mut rng).map_err(|e| format!("setup {:?}", e))?;
+            let (ck, vk) = S::PC::trim(&pp, supported, h, None).map_err(|e| format!("trim {:?}", e))?;
+            let poly = S::rand_poly(&mut rng, &sizes, supported);
+            let lp = LabeledPolynomial::new("p".to_string(), poly, None, Some(h));
+            let (comms, sts) = S::PC::commit(&ck, [&lp], Some(&mut rng)).map_err(|e| format!("commit {:?}", e))?;
+            let z = S::rand_point(&mut rng, &sizes);
+            let v = lp.evaluate(&z);
+            let mut sp = fresh_sponge();
+            let pf = S::PC::open(&ck, [&lp], &comms, &z, &mut sp, &sts, Some(&mut rng)).map_err(|e| format!("open {:?}", e))?;
+            let mut sp = fresh_sponge();
+            let single = S::PC::check(&vk, &comms, &z, [v], &pf, &mut sp, Some(&mut rng)).map_err(|e| format!("check {:?}", e))?;
+            let mut qs = QuerySet::new();
+            qs.insert(("p".to_string(), ("z".to_string(), z.clone())));
+            let mut ev = Evaluations::new();
+            ev.insert(("p".to_string(), z.clone()), v);
+            let mut sp = fresh_sponge();
+            let bp = S::PC::batch_open(&ck, [&lp], &comms, &qs, &mut sp, &sts, Some(&mut rng)).map_err(|e| format!("batch_open {:?}", e))?;
+            let mut sp = fresh_sponge();
+            let batch = S::PC::batch_check(&vk, &comms, &qs, &ev, &bp, &mut sp, &mut rng).map_err(|e| format!("batch_check {:?}", e))?;
+            Ok((single, batch))
+        });
+        match &r {
+            Ok(Ok((true, true))) => {}
+            other => ctx.rep.expect_fail(&id, &format!("{}/honest-rejected/hiding-above-degree", S::NAME),
+                &format!("honest opening with hiding bound {} above the supported degree {} not accepted: {:?}", h, supported, other),
+                format!("# scheme: {}\n# case: {}\n# seed: {}\n# setup({}), trim(pp, {}, {}, None), polynomial of degree {} with hiding bound {}\n# rerun: .build/cargo/debug/pcv-harness C01 --seed {} --only {}\n", S::NAME, id, ctx.seed, max_degree, supported, h, supported, h, ctx.seed, id)),
+        }
+        ctx.rep.case(&format!("{} hiding {} above degree {} -> {:?}", S::NAME, h, supported, r.as_ref().map_err(|e| e.chars().take(40).collect::<String>())), Some(format!("{}/hiding-above-degree/{}/{}", S::NAME, supported, h)));
     }
 }
